@@ -22,8 +22,12 @@ text of one property and a scratch worktree of `/repo` (nothing from `/verif`): 
 agent's demonstration `demo.rs`, its README and `meta.json`. Every one was confirmed by
 `tools/verify_seed.sh` (demo passes on the clean tree, fails with the patch; unedited suite 194/194
 with the patch) and then run against the checks with `tools/try_patch.sh` / `tools/matrix.sh`
-(`git -C /repo apply`, quick checks, `git -C /repo checkout -- .`). Column 4 lists the quick checks
-that exit 1 on the patched tree (from `seeded/MATRIX.tsv`, the full 20-check matrix).
+(`git -C /repo apply`, quick checks, `git -C /repo checkout -- .`) or, since round 3, in an
+isolated copy (`tools/mx_sync.sh`, `tools/try_mx.sh`). Column 4 lists the quick checks that were
+observed to exit 1 on the patched tree in the runs of the last session (`seeded/MATRIX.tsv`: the
+check of the property the seed aims at, siblings where they were run; its fourth column names the
+checks that were run). `(see note)` = not re-run in the last session; the history column says what
+happened when the seed was filed and what was strengthened.
 
 | seed | aimed at | mechanism | quick checks that report it | history |
 |---|---|---|---|---|
